@@ -526,6 +526,71 @@ example : ∃ s : FSys Nat, FExec 4 dia s ∧ s.hist = [.inv 0 0 (.artifact 3), 
   · exact artifactTraceS_eval (F := 4) dia dia_init.1 3 (mkN [some 1, some 2]) rfl (by decide)
   · decide
 
+/-! ### the critical sections as PROGRAMS of micro-steps; the unlocked model-version read -/
+
+omit [DecidableEq V] in
+/-- **the programs of the three entry points are correct** (the `UpdateParameter` /
+    `ParameterData` analogue of `programs_correct`, non-trivially): run from the state found at
+    `Lock()` with nothing in between, the micro-steps of a call — `UpdateParameter`: parameter
+    lookup, `version++`, value write, result, `incModelVersion()` (the latter also after a rejected
+    message); `ParameterData`: lookup, value read; `Artifact`: outdated check, one `.Value()` pull
+    per dependency slot as the producer's strategy says, store, cache read — leave exactly the
+    graph of the atomic step `seqStep`, bump the model version as the code does, and the response
+    assembled from what the steps READ is the atomic response -/
+theorem programs_correct_all (g : Graph V) (hac : Acyclic F g) (mv : Nat) (c : Call V) :
+    (runProg F (progOf g c) ((g, mv), {})).1.1 = (seqStep F g c).1 ∧
+    (runProg F (progOf g c) ((g, mv), {})).1.2 = mv + bump g c ∧
+    (runProg F (progOf g c) ((g, mv), {})).2.out = (seqStep F g c).2 :=
+  prog_correct F g hac mv c
+
+/-- **refinement of the program system**: every execution of `PExec` — each client takes the lock
+    where the lock facts say, executes the micro-steps of its call one at a time on the CURRENT
+    shared state, arbitrarily interleaved with the other clients' steps and with unlocked
+    `ModelVersion()` reads, responds with what its steps assembled, and releases the lock — is,
+    through `PSys.abs`, an execution of the atomic system with the same history and the same
+    critical-section order (no side condition on the micro-steps any more: it is `programs_correct_all`
+    plus the invariant that nobody else touches the shared state while the lock is held) -/
+theorem prog_refines_atomic (g0 : Graph V) (h0 : Init F g0) (s : PSys V) (h : PExec F g0 s) :
+    Exec F g0 s.abs ∧ s.abs.hist = s.hist ∧ s.abs.lin = s.lin :=
+  ⟨prog_refines g0 h0 s h, rfl, rfl⟩
+
+/-- hence every execution of the program system is linearizable -/
+theorem prog_linearizable (g0 : Graph V) (h0 : Init F g0) (s : PSys V) (h : PExec F g0 s) :
+    Linearization F g0 s.hist s.lin :=
+  (linearizable g0 s.abs (prog_refines g0 h0 s h)).1
+
+omit [DecidableEq V] in
+/-- **the unlocked read of the model version is regular**: a `ModelVersion()` call made WITHOUT the
+    lock (hub goroutine, `/started`; an atomic load since fix 899edf1) returns a value between the
+    counter at the moment of the call and the counter at the moment of the return — never a value
+    the counter did not have, never one older than the call; and the counter only grows -/
+theorem model_version_regular (g0 : Graph V) (s : PSys V) (h : PExec F g0 s) :
+    (∀ o ∈ s.obs, o.1 ≤ o.2.1 ∧ o.2.1 ≤ o.2.2) ∧
+    (∀ t mv0 v, s.pc t = .mvGot mv0 v → mv0 ≤ v ∧ v ≤ s.mv) ∧
+    (∀ t mv0, s.pc t = .mvWait mv0 → mv0 ≤ s.mv) :=
+  ⟨(pinv g0 s h).obs, (pinv g0 s h).got, (pinv g0 s h).wait⟩
+
+/-- **the model version counts the parameter messages**: outside critical sections the counter is
+    the number of `UpdateParameter` calls on parameters — accepted AND rejected messages, as the
+    code does — among the critical sections that have run (taken along the sequential run of
+    `s.lin`); a client inside its critical section found exactly that number at `Lock()` -/
+theorem model_version_counts_updates (g0 : Graph V) (h0 : Init F g0) (s : PSys V) (h : PExec F g0 s) :
+    (s.lock = none → s.mv = bumpsAlong F g0 (s.lin.map (·.call))) ∧
+    (∀ t id c start mv0 loc todo, s.pc t = .crit id c start mv0 loc todo →
+      mv0 = bumpsAlong F g0 (s.lin.map (·.call))) :=
+  model_version_counts g0 h0 s h
+
+/-- a concrete execution of the program system on the diamond: client 0 is inside `Artifact(3)`
+    (outdated check and the pull of L done), client 2 reads the model version without the lock,
+    client 1 has invoked an update and waits -/
+example : ∃ s : PSys Nat, PExec 4 dia s ∧ (s.pc 0).isCrit = true ∧ s.obs = [(0, 0, 0)] ∧
+    s.hist = [.inv 0 0 (.artifact 3), .inv 1 1 (.update 0 10)] := by
+  refine ⟨_, .step (.step (.step (.step (.step (.step (.step (.step .init
+    (.invoke _ 0 (.artifact 3) rfl)) (.acquire _ 0 0 (.artifact 3) rfl rfl))
+    (.micro _ 0 0 (.artifact 3) _ _ _ _ _ rfl)) (.mvCall _ 2 rfl))
+    (.micro _ 0 0 (.artifact 3) _ _ _ _ _ rfl)) (.invoke _ 1 (.update 0 10) rfl))
+    (.mvLoad _ 2 0 rfl)) (.mvReturn _ 2 0 0 rfl), rfl, rfl, rfl⟩
+
 /-- a concrete execution of the fine-grained system with two clients: client 0 is inside its
     critical section (two micro-steps done) while client 1 is waiting for the lock -/
 example : ∃ s : GSys Nat, GExec 0 s ∧ s.g = 12 ∧ (s.pc 0).isCrit = true ∧ (s.pc 1).isCrit = false := by
